@@ -531,6 +531,22 @@ def sample(ctx, budget=1.0, hint=None, broken=None):
             if not (abs(L - g) <= 1e-6 * g):
                 fail('length after a coarser measurement (%s scipy=%s)' % (kindc, mode), 'length() at the default accuracy returns what an earlier, coarser measurement of the same object left behind',
                      {'seg': repr(seg), 'first': pre, 'scipy': mode}, repr(L), repr(g), src)
+        # --- recorded witnesses of repaired defects, re-examined on every run (a fixed entry suppresses nothing) ---------------
+        if had_quad:
+            P._quad_available = True
+            wsrc = ('svgpathtools.Arc(start=(-0.6187631941751703+0.028796888197383685j), radius=(0.46382648581069774+2.7077844523193573j), '
+                    'rotation=-126.35661885741143, large_arc=True, sweep=False, end=(0.30607711070810684+0.18859482386243198j))')
+            warc = eval(wsrc, {'svgpathtools': spt})
+            wt0, wt1 = 0.18711591687310503, 0.7881591469624175
+            n_eval += 1
+            with warnings.catch_warnings():
+                warnings.simplefilter('ignore')
+                Lw = warc.length(wt0, wt1)
+            gw = gauss(lambda tau: abs(warc.derivative(tau)), wt0, wt1)
+            if abs(Lw - gw) > 1e-6 * gw:
+                fail('length differs from quadrature (arc scipy=True)', 'length(t0,t1) differs from composite Gauss-Legendre quadrature of |derivative| (eccentric arc: quad\'s '
+                     'default relative tolerance accepts a first estimate that is off by 4e-5)', {'seg': repr(warc), 't0': wt0, 't1': wt1, 'scipy': True},
+                     repr(Lw), repr(gw), '%s.length(%r, %r)' % (wsrc, wt0, wt1))
         # --- paths: sum of segments, with and without scipy -------------------------------------------------
         for it in range(int(ctx.n(30, 300) * budget)):
             mode = modes[it % len(modes)]
